@@ -564,14 +564,22 @@ func registerJSONBox(m map[string]intrinsicFn) {
 		if !ok || tgt.N == nil {
 			return in.newError("json: Unmarshal(non-pointer)")
 		}
-		tree, ok := in.gobVals[k].(*gobTree)
-		if !ok {
-			return in.newError("gob: bad stream")
+		if _, isTree := in.gobVals[k].(*gobTree); isTree {
+			return in.newError("json: bad input")
 		}
+		saveMemo := in.memo
+		in.memo = map[interface{}]interface{}{}
+		val := in.cloneValue(in.gobVals[k])
+		in.memo = saveMemo
 		in.abstractUsed = true
-		val, derr := in.gobRestore(tree, tgt.N.T)
-		if e, _ := derr.(IfaceV); e.T != nil {
-			return derr
+		if st, dtp := in.jsonT[k], args[1].(IfaceV).T; st != nil && dtp != nil {
+			if pt, ok := dtp.Underlying().(*types.Pointer); ok && !types.Identical(st, pt.Elem()) {
+				conv, ok := in.jsonConv(val, st, pt.Elem(), in.load(tgt))
+				if !ok {
+					in.unsupportedf("json: conversion of boxed %v into %v", st, pt.Elem())
+				}
+				val = conv
+			}
 		}
 		in.store(tgt, val)
 		return IfaceV{}
